@@ -102,8 +102,7 @@ def appendFx (h : Heap) (T : Toks) (f c : Nat) : Val → List Val → Heap × Op
     if isEmpty h id then appendLoopF h none none [] T f c args
     else appendLoopF h (some id) (some (tailOf h (fuelOf h) id)) [] T f c args
   | .typedNil, args => appendLoopF h none none [] T f c args
-  | .nilIface, [] => (h, none, [], T, c)
-  | .nilIface, a :: as => appendFx h T f c a as
+  | .nilIface, args => appendLoopF h none none [] T f c args
   | v, args =>
     if isNil v then appendLoopF h none none [] T f c args
     else appendLoopF (h.push (wrapperNode v)) (some h.size) (some h.size) [] (T.push (some { creator := f, site := c })) f (c + 1) args
